@@ -38,6 +38,10 @@ pub fn engine_kind(kind: usize) -> Engine {
     }
     let mut e = engine_from_bytes(&voice_cfg(kind).bytes()).expect("generated voice");
     e.condition.set_beta(0.3);
+    if kind >= 2 {
+        // HIST voices: a low F0 threshold so that every utterance has voiced frames (pitch setters must matter)
+        e.condition.set_msd_threshold(1, 0.05);
+    }
     e
 }
 pub fn utterances() -> Vec<Vec<String>> {
@@ -59,11 +63,14 @@ fn setter_act(s: usize, on: bool) -> Act {
         (1, false) => Act::Beta(0.3),
         (2, true) => Act::Gv(0, 1.7),
         (2, false) => Act::Gv(0, 1.0),
-        (3, true) => Act::Msd(1, 0.2),
-        (3, false) => Act::Msd(1, 0.5),
+        (3, true) => Act::Msd(1, 0.5),
+        (3, false) => Act::Msd(1, 0.05),
         (4, true) => Act::HalfTone(3.0),
         (_, _) => Act::HalfTone(0.0),
     }
+}
+pub fn engine_for_mask_pub(base: &Engine, mask: u8) -> Engine {
+    engine_for_mask(base, mask)
 }
 fn engine_for_mask(base: &Engine, mask: u8) -> Engine {
     let mut e = base.clone();
@@ -101,6 +108,7 @@ pub struct HistModel {
     depth: usize,
     transitions: AtomicU64,
     outcomes: Mutex<std::collections::BTreeSet<u64>>,
+    checked_last: AtomicU64,
 }
 
 pub fn replay_hist(base: &Engine, utts: &[Vec<String>], baselines: &HashMap<(u8, usize), Vec<f64>>, hist: &[Op], outcomes: Option<&Mutex<std::collections::BTreeSet<u64>>>) -> Result<(), String> {
@@ -232,7 +240,12 @@ impl Model for HistModel {
         Some(HState { hist, live, mask, bad })
     }
     fn properties(&self) -> Vec<Property<Self>> {
-        vec![Property::always("outputs equal fresh-process baselines", |_m: &HistModel, s: &HState| s.bad.is_none())]
+        vec![Property::always("outputs equal fresh-process baselines", |m: &HistModel, s: &HState| {
+            if s.hist.len() == m.depth {
+                m.checked_last.fetch_add(1, Ordering::Relaxed);
+            }
+            s.bad.is_none()
+        })]
     }
 }
 
@@ -316,12 +329,23 @@ fn child_sched(args: &[String]) -> i32 {
     let gran: u8 = args[3].parse().unwrap();
     let wall: u64 = args[4].parse().unwrap();
     let replay: Option<Vec<usize>> = args.get(5).map(|s| if s.is_empty() { vec![] } else { s.split(',').map(|x| x.parse().unwrap()).collect() });
-    let engine = Arc::new(engine_kind(kind));
     let utts = utterances();
-    let programs: Vec<Program<Vec<f64>>> = tuple.iter().map(|p| program(&engine, &utts, *p)).collect();
-    // solo baselines before any scheduler is installed
-    let baselines: Vec<Vec<f64>> = programs.iter().map(|p| p()).collect();
-    let render0 = format!("{:?}", engine.condition);
+    // every execution gets a freshly loaded engine, so that state a change keeps inside the engine (a cache
+    // shared by clones, say) starts empty in each explored schedule and a choice prefix replays exactly
+    let current: Arc<Mutex<Arc<Engine>>> = Arc::new(Mutex::new(Arc::new(engine_kind(kind))));
+    let make = {
+        let current = current.clone();
+        let utts = utts.clone();
+        let tuple = tuple.clone();
+        move || -> Vec<Program<Vec<f64>>> {
+            let e = Arc::new(engine_kind(kind));
+            *current.lock().unwrap() = e.clone();
+            tuple.iter().map(|p| program(&e, &utts, *p)).collect()
+        }
+    };
+    // solo baselines, each on its own fresh engine, before any scheduler is installed
+    let baselines: Vec<Vec<f64>> = (0..tuple.len()).map(|i| (make()[i])()).collect();
+    let render0 = format!("{:?}", engine_kind(kind).condition);
     sched::set_granularity(gran);
     let mut check = |x: &sched::Execution<Vec<f64>>| -> Option<String> {
         for (i, o) in x.outputs.iter().enumerate() {
@@ -334,20 +358,20 @@ fn child_sched(args: &[String]) -> i32 {
                 }
             }
         }
-        if format!("{:?}", engine.condition) != render0 {
+        if format!("{:?}", current.lock().unwrap().condition) != render0 {
             return Some("the shared engine's condition changed".into());
         }
         None
     };
     if let Some(choices) = replay {
-        let x = sched::run_once(&programs, &choices);
+        let x = sched::run_once(&make(), &choices);
         let v = if x.hang { Some("hang".to_string()) } else { check(&x) };
         println!("{}", json!({"replayed": true, "violation": v, "points": x.points.len(), "divergence": x.divergence}));
         return 0;
     }
     // determinism of the harness: the same schedule twice gives the same trace and outputs
-    let a = sched::run_once(&programs, &[]);
-    let b = sched::run_once(&programs, &[]);
+    let a = sched::run_once(&make(), &[]);
+    let b = sched::run_once(&make(), &[]);
     let deterministic = a.trace == b.trace && a.outputs.iter().zip(&b.outputs).all(|(x, y)| match (x, y) {
         (Some(x), Some(y)) => bits_eq(x, y),
         (None, None) => true,
@@ -359,7 +383,7 @@ fn child_sched(args: &[String]) -> i32 {
     let mut completed: Option<usize> = None;
     for bnd in 0..=bound {
         let mut st = ExploreStats { schedules: 0, points: 0, max_points: 0, completed_bound: None, capped: false, blocked_events: 0, distinct_traces: Default::default() };
-        let r = sched::explore(&programs, bnd, deadline, &mut st, &mut check);
+        let r = sched::explore(&make, bnd, deadline, &mut st, &mut check);
         stats.schedules += st.schedules;
         stats.points += st.points;
         stats.max_points = stats.max_points.max(st.max_points);
@@ -543,9 +567,10 @@ pub fn run(tier: Tier) -> i32 {
         let distinct_base: std::collections::BTreeSet<u64> = baselines.values().map(|w| hash_f64s(w)).collect();
         let mut counts = Vec::new();
         for threads in [nthreads(), 4] {
-            let model = HistModel { base: base.clone(), utts: utts.clone(), baselines: baselines.clone(), depth, transitions: Default::default(), outcomes: Default::default() };
-            let checker = model.checker().threads(threads).target_max_depth(depth + 1).spawn_bfs().join();
+            let model = HistModel { base: base.clone(), utts: utts.clone(), baselines: baselines.clone(), depth, transitions: Default::default(), outcomes: Default::default(), checked_last: Default::default() };
+            let checker = model.checker().threads(threads).target_max_depth(depth + 2).spawn_bfs().join();
             counts.push(checker.unique_state_count());
+            rep.guard(checker.model().checked_last.load(Ordering::Relaxed) > 0, "invariant never evaluated on histories at the depth bound");
             if threads != nthreads() {
                 if kind == 3 || tier == Tier::Thorough {
                     // the second run is only a determinism cross-check of the explorer; once per tier is enough
@@ -566,7 +591,7 @@ pub fn run(tier: Tier) -> i32 {
             for (_n, path) in checker.discoveries() {
                 let last = path.last_state().clone();
                 let what = last.bad.clone().unwrap_or_default();
-                let key = if what.contains("panic") { "hist-panic" } else if what.contains("condition") { "hist-condition-changed" } else if what.contains("clone") { "hist-clone" } else if what.contains("generator") { "hist-generator" } else { "hist-repeat" };
+                let key = if what.contains("panic") { "hist-panic" } else if what.contains("changed the engine's condition") { "hist-condition-changed" } else if what.contains("clone") { "hist-clone" } else if what.contains("generator") { "hist-generator" } else { "hist-repeat" };
                 rep.violation(key, format!("{} :: history {:?}", what, last.hist), json!({"part": "hist", "voice_kind": kind, "history": last.hist.iter().map(|o| format!("{:?}", o)).collect::<Vec<_>>()}));
             }
         }
